@@ -668,7 +668,11 @@ def check_path_words(rep, backend, p, st, argvs, srcdir):
     if missing:
         return rep.fail('%s backend: path-valued flag words %r of %s are delivered as %r' % (backend, missing, st.get('source') or st['out'], hit[0]),
                         {'script': p.script(), 'srcdir': srcdir, 'declared_words': want, 'missing': missing, 'delivered': hit[0]},
-                        classes=semicolon_class(backend, st['options'], hit[0], p.global_compile if st['kind'] == 'compile' else p.global_link))
+                        # (the words written behind the step's own options on its target-specific line belong to the line the open
+                        # finding target-flag-semicolon is about)
+                        # (the source directory arrives through $(srcdir), expanded after the line was cut: it is not text of the line)
+                        classes=semicolon_class(backend, list(st['options']) + [flag + '/SRCDIR/' + rel for flag, rel in st.get('path_words_after_options', [])],
+                                                [w.replace(srcdir, '/SRCDIR') for w in hit[0]], p.global_compile if st['kind'] == 'compile' else p.global_link))
     return 0
 
 
